@@ -353,6 +353,26 @@ def wrap(rep, meta, vm, sfx):
     if not ms:
         r.lost("match on OptimizedExpr in wrap_branching_exprs")
         return
+    # shape: the restorer only *adds* RestoreOnErr; an arm that matched operator V gives back operator V (or what it was
+    # given) on every path - `e+` handed back as `e*` changes what the rule accepts
+    rs = rep.rule("C05.RESTORE-SHAPE" + sfx, 2,
+                  "every arm of the restorer's wrapping function rebuilds the operator it matched on every path (its "
+                  "children wrapped in RestoreOnErr or unchanged), or returns its argument unchanged")
+    for arm in ms[0]["arms"]:
+        vs = [v for v in hirq.pat_variants(arm["pat"]) if str(v).startswith(OEXPR + "::")]
+        if not vs or hirq.pat_is_catchall(arm["pat"]):
+            continue
+        leaves = hirq.tail_leaves(arm["body"]) + [x["e"] for x in walk(arm["body"]) if kind(x) == "Ret" and x.get("e") is not None]
+        for lf in leaves:
+            lf = peel(lf)
+            key = "arm:" + "+".join(sorted(v.split("::")[-1] for v in vs))
+            rs.instance(key, where(lf), hirq.expr_text(lf)[:40])
+            if kind(lf) == "Call" and isinstance(callee(lf), str) and callee(lf).startswith(OEXPR + "::"):
+                if callee(lf) not in vs:
+                    rs.violation(key, where(lf),
+                                 "the restorer hands back %s for a matched %s: the pass that only adds RestoreOnErr "
+                                 "wrappers changes the operator (e.g. `e+` becomes `e*`, which also matches nothing)"
+                                 % (callee(lf).split("::")[-1], "/".join(v.split("::")[-1] for v in vs)))
     handled = {}
     for arm in ms[0]["arms"]:
         for v in hirq.pat_variants(arm["pat"]):
